@@ -38,11 +38,19 @@ def check(chk, facts, rule, prefixes, floor):
         for x, n in mem.items():
             f = facts.fns[n]
             cs = []
-            for g in [f] + list(facts.closures_of(n)):
-                for b, t in g.calls():
-                    c = callee(t)
-                    if c.startswith(("cedar_policy::", "cedar_policy_core::")):
-                        cs.append(_norm(c.split("::")[-1]))
+            def calls_of(h, depth):
+                for g in [h] + list(facts.closures_of(h.name)):
+                    for b, t in g.calls():
+                        c = callee(t)
+                        if not c.startswith(("cedar_policy::", "cedar_policy_core::")):
+                            continue
+                        # a private helper of the same type is looked through once, so that moving shared work into a helper
+                        # in one form only does not count as a difference
+                        if depth == 0 and c.startswith(ty + "::") and c not in mem.values() and c in facts.fns and "{closure" not in c:
+                            yield from calls_of(facts.fns[c], 1)
+                        else:
+                            yield _norm(c.split("::")[-1])
+            cs = list(calls_of(f, 0))
             prof[x] = sorted(cs)
         impl = {x: p for x, p in prof.items() if p != [base + "_*"]}
         vals = list(impl.values())
